@@ -965,7 +965,9 @@ def deep_descs(prop, tier):
             for acyclic in (False, True):
                 out.append(dict(func="active_vertices_connected", n=n, edges=P(n), acyclic=acyclic, prim=False, form="vars", deep=True))
                 out.append(dict(func="active_vertices_connected", n=n, edges=C(n), acyclic=acyclic, prim=False, form="vars", deep=True))
-        for g in ((1, 12), (12, 1), (4, 6), (6, 4)) + (((5, 7), (3, 10)) if big else ()):
+        # (5, 6) and (7, 5): the smallest boards whose snake pattern has a radius above height + width - 2, the grid's own
+        # diameter (a rank range derived from the board instead of the vertex count only fails there: seed S190)
+        for g in ((1, 12), (12, 1), (4, 6), (6, 4), (5, 6), (7, 5)) + (((5, 7), (3, 10)) if big else ()):
             for acyclic in (False, True):
                 out.append(dict(func="active_vertices_connected", grid=list(g), acyclic=acyclic, prim=False, form="vars", deep=True))
     if prop == "C04":
